@@ -26,6 +26,8 @@ pub struct AikCfg {
     pub expect_weight: u32,
     /// weight of the closure scenario (a possibly-throwing binding captured by a closure that may never be called)
     pub closure_weight: u32,
+    /// prefer `List<Pair<k, v>>` among list types and list types among generic instantiations
+    pub pairs_bias: bool,
     /// weight of trace / `?` constructs
     pub trace_weight: u32,
     /// weight of Data casts
@@ -36,7 +38,7 @@ pub struct AikCfg {
 
 impl Default for AikCfg {
     fn default() -> Self {
-        AikCfg { max_depth: 5, max_adts: 3, max_helpers: 4, abort_weight: 3, expect_weight: 3, closure_weight: 2, trace_weight: 3, cast_weight: 6, opaque: false, builtins: true }
+        AikCfg { max_depth: 5, max_adts: 3, max_helpers: 4, abort_weight: 3, expect_weight: 3, closure_weight: 2, pairs_bias: false, trace_weight: 3, cast_weight: 6, opaque: false, builtins: true }
     }
 }
 
@@ -294,7 +296,15 @@ impl<'s, 'd> Gen<'s, 'd> {
             1 => Ty::Bool,
             2 => Ty::Bytes,
             3 => Ty::Unit,
-            4 => Ty::list(self.ty(depth - 1)),
+            4 => {
+                // associative lists have their own representation (a map): bias towards them
+                // when asked, so that plain lists and pair lists meet in one program
+                if self.cfg.pairs_bias && self.src.chance(2, 5) {
+                    Ty::list(Ty::pair(self.ty(0), self.ty(0)))
+                } else {
+                    Ty::list(self.ty(depth - 1))
+                }
+            }
             5 => Ty::opt(self.ty(depth - 1)),
             6 => {
                 let n = 2 + self.src.below(2);
@@ -885,6 +895,47 @@ impl<'s, 'd> Gen<'s, 'd> {
         E::Let(Pat::Var(x.clone()), tt, bx(base), bx(E::TupleIx(bx(E::Var(x)), ix)))
     }
 
+    /// A type whose Data encoding is close to, but not, an encoding of `t`.
+    fn near_miss(&mut self, t: &Ty, depth: usize) -> Option<Ty> {
+        match t {
+            Ty::Pair(a, b) => Some(match self.src.below(3) {
+                0 => Ty::Tuple(vec![(**a).clone(), (**b).clone(), self.ty(0)]),
+                1 => Ty::Tuple(vec![(**a).clone(), (**b).clone(), (**b).clone(), self.ty(0)]),
+                _ => Ty::list((**a).clone()),
+            }),
+            Ty::Tuple(ts) => Some(match self.src.below(3) {
+                0 if ts.len() < 4 => {
+                    let mut v = ts.clone();
+                    v.push(self.ty(0));
+                    Ty::Tuple(v)
+                }
+                1 if ts.len() > 2 => Ty::Tuple(ts[..ts.len() - 1].to_vec()),
+                _ if depth > 0 => {
+                    let k = self.src.below(ts.len());
+                    let inner = self.near_miss(&ts[k], depth - 1)?;
+                    let mut v = ts.clone();
+                    v[k] = inner;
+                    Ty::Tuple(v)
+                }
+                _ => return None,
+            }),
+            Ty::List(e) if depth > 0 => Some(Ty::list(self.near_miss(e, depth - 1)?)),
+            Ty::Opt(e) if depth > 0 => Some(Ty::opt(self.near_miss(e, depth - 1)?)),
+            Ty::Adt(i, targs) if depth > 0 => {
+                // same type constructor at another instantiation, when it has a parameter
+                if targs.is_empty() {
+                    return None;
+                }
+                let inner = self.near_miss(&targs[0], depth - 1)?;
+                Some(Ty::Adt(*i, vec![inner]))
+            }
+            Ty::Int => Some(Ty::Bytes),
+            Ty::Bytes => Some(Ty::Int),
+            Ty::Bool => Some(Ty::opt(Ty::Int)),
+            _ => None,
+        }
+    }
+
     fn data_roundtrip(&mut self, sc: &mut Scope, t: &Ty, d: usize) -> E {
         self.mark("data-cast");
         // source of the Data: an up-cast of a value of type t (cast succeeds), of another type
@@ -896,7 +947,15 @@ impl<'s, 'd> Gen<'s, 'd> {
                 if *t == Ty::Data { e } else { E::ToData(bx(e), t.clone()) }
             }
             1 => {
-                let t2 = self.ty(1);
+                // another type: unrelated, or a near miss of the target (one element more or
+                // less, a pair where a tuple is expected, ...), which only a strict cast rejects
+                let t2 = match (if self.src.chance(2, 3) { self.near_miss(t, 2) } else { None }) {
+                    Some(n) => {
+                        self.mark("near-miss-cast");
+                        n
+                    }
+                    None => self.ty(1),
+                };
                 let e = self.expr(sc, &t2, d);
                 if t2 == Ty::Data { e } else { E::ToData(bx(e), t2) }
             }
@@ -941,7 +1000,18 @@ impl<'s, 'd> Gen<'s, 'd> {
         let k = self.src.below(cands.len());
         let (i, sub) = cands.swap_remove(k);
         let sig = self.sigs[i].clone();
-        let sub: Vec<Ty> = sub.into_iter().map(|s| s.unwrap_or_else(|| self.ty(1))).collect();
+        let sub: Vec<Ty> = sub
+            .into_iter()
+            .map(|s| {
+                s.unwrap_or_else(|| {
+                    if self.cfg.pairs_bias && self.src.chance(1, 2) {
+                        if self.src.bool() { Ty::list(Ty::pair(self.ty(0), self.ty(0))) } else { Ty::list(self.ty(0)) }
+                    } else {
+                        self.ty(1)
+                    }
+                })
+            })
+            .collect();
         if sig.tyvars > 0 {
             self.mark("generic-call");
         }
